@@ -122,11 +122,26 @@ Example finalize_needs_a_step :
   filter (fun s => valid_next lc s 8) [0; 1; 2; 3; 4; 5; 6; 7; 8; 9] = [7].
 Proof. vm_compute. reflexivity. Qed.
 
-(* InteractiveContext.run (run_until the stop time = take_steps(ceil(...))) does exactly what SimulationContext.run does *)
-Theorem C08_interactive_run_agrees : forall s fuel, 0 < stepsz s -> clock s - stepsz s < stop s ->
-  steps_needed (clock s) (stop s) (stepsz s) <= Z.of_nat fuel ->
-  interactive_run fixed s = run_loop fuel fixed s.
+(* InteractiveContext.run (= run_until the stop time: `while clock < end: step()`, commit 98b7435f) does exactly what
+   SimulationContext.run does - for EVERY step-size rule (fixed or per-simulant), every state and every fuel. *)
+Theorem C08_interactive_run_agrees : forall fuel nxt s, interactive_run fuel nxt s = run_loop fuel nxt s.
 Proof. exact interactive_run_agrees. Qed.
+
+(* run_until / run_for to an ARBITRARY end time with a fixed step: exactly ceil((end - clock)/step) steps, ending on the
+   first grid point at or after the end; no step at all when the end is not after the clock *)
+Theorem C08_run_until_count : forall s e fuel, 0 < stepsz s -> steps_needed (clock s) e (stepsz s) <= Z.of_nat fuel ->
+  exists s', run_until fuel fixed e s = Ok s'
+    /\ nsteps s' = nsteps s + steps_needed (clock s) e (stepsz s)
+    /\ clock s' = clock s + steps_needed (clock s) e (stepsz s) * stepsz s
+    /\ (clock s < e -> e <= clock s' < e + stepsz s)
+    /\ (e <= clock s -> s' = s).
+Proof. exact run_until_final. Qed.
+
+(* ... and for ANY step-size rule it stops exactly when the end time is reached: never short of it, and never a step
+   further than needed *)
+Theorem C08_run_until_stops_at_end : forall fuel nxt e s s', run_until fuel nxt e s = Ok s' ->
+  e <= clock s' /\ (clock s < e -> exists s1, clock s1 < e /\ s' = step nxt s1).
+Proof. exact run_until_stops_at_end. Qed.
 
 (* the comparison Coq makes between an observed call sequence and the model's (up to a permutation inside each bucket)
    means what it says: exactly the model's listeners with multiplicity, bucket by bucket *)
@@ -137,6 +152,7 @@ Theorem C08_comparison_sound : forall expected obs, same_up_to_buckets expected 
 Proof. exact same_up_to_buckets_sound. Qed.
 
 (* ---- non-vacuity ---- *)
+
 (* three components; listeners on several channels and priorities, one listener registered twice, one with a negative
    and one with an out-of-range priority *)
 Definition demo_comps : list comp :=
@@ -159,13 +175,19 @@ Example demo_run :
      [(7, 2007, 10, 13); (7, 301, 10, 13); (7, 3007, 10, 13); (7, 2007, 13, 16); (7, 301, 13, 16); (7, 3007, 13, 16);
       (7, 2007, 16, 19); (7, 301, 16, 19); (7, 3007, 16, 19)], 36%nat).
 Proof. vm_compute. reflexivity. Qed.
+(* a session with a step size that changes (2, then 3 from clock 12 on): run_until 11 (1 step: 10 -> 12), run_until 12 (none),
+   run_until 16 (2 steps: 15, 18), run_until 3 (none) *)
+Example demo_session_variable_step :
+  match interactive_session 9 (table_nxt [(12, 3)]) [11; 12; 16; 3] (mk_sim 10 100 2 demo_comps) with
+  | Ok s => (nsteps s, clock s, stepsz s) | _ => (-1, 0, 0) end = (3, 18, 3).
+Proof. vm_compute. reflexivity. Qed.
 Example demo_zero_length :
   match run_only 0 fixed (mk_sim 10 10 3 demo_comps) with Ok s => (nsteps s, clock s, length (icalls s)) | _ => (-1, 0, 0%nat) end
   = (0, 10, 2%nat)
   /\ run_simulation 7 fixed (mk_sim 10 10 3 demo_comps) = Rejected EInvalidTransition.
 Proof. vm_compute. auto. Qed.
 Example demo_interactive_same :
-  match interactive_simulation fixed (mk_sim 10 17 3 demo_comps), run_simulation 9 fixed (mk_sim 10 17 3 demo_comps) with
+  match interactive_simulation 9 fixed (mk_sim 10 17 3 demo_comps), run_simulation 9 fixed (mk_sim 10 17 3 demo_comps) with
   | Ok a, Ok b => list_eqb tcall_eqb (calls a) (calls b) && (clock a =? clock b)
   | _, _ => false
   end = true.
@@ -186,4 +208,6 @@ Print Assumptions C08_fencepost.
 Print Assumptions C08_simulation_trace.
 Print Assumptions C08_zero_length_run_cannot_finish.
 Print Assumptions C08_interactive_run_agrees.
+Print Assumptions C08_run_until_count.
+Print Assumptions C08_run_until_stops_at_end.
 Print Assumptions C08_comparison_sound.
